@@ -1295,6 +1295,15 @@ def r_fill_returns_true_only_after_drawing(ck, P, rid='C19-R18'):
             if a[0] == 'c' and int(a[1]) == 0:
                 continue
             n += 1; ck.saw(f)
+            # "no boxes at all" is a legitimate reason to report success without drawing: such a return is guarded by a comparison of
+            # the box count with a constant
+            nb = [i for i, (nm, ty) in enumerate(f.params) if ty == 'i32' and 'box' in (nm or '')]
+            edges_ = set(f.guard_edges(bb))
+            tt = f.blocks[bb].term
+            if tt.op == 'br' and tt.a and len(set(tt.d['succ'])) == 2:
+                edges_.add((tt, rv.bb.id))
+            if any(t2.a and any(list(f.strip_casts(o)) == ['a', k] for k in nb for o in (f.cond(t2.a[0])[2] or [])) and any(o[0] == 'c' and int(o[1]) in (0, 1) for o in (f.cond(t2.a[0])[2] or [])) for t2, s2 in edges_):
+                ck.ok(R, '%s: non-zero return from block %d (no boxes)' % (f.name, bb)); continue
             # is bb reachable from the entry without passing a setup block?
             seen = set(); work = [0]; hit = False
             while work:
